@@ -12,7 +12,9 @@ func (op *FsTxn) postCommit() {
 
 func (op *FsTxn) commitWait(wait bool) bool {
 	op.preCommit()
+	verifCommit(op, wait)
 	ok := op.Atxn.Op.CommitWait(wait)
+	verifCommitted(op, ok)
 	op.postCommit()
 	return ok
 }
@@ -44,6 +46,7 @@ func (op *FsTxn) CommitFh() bool {
 // An aborted transaction may free an inode, which results in dirty
 // buffers that need to be written to log. So, call commit.
 func (op *FsTxn) Abort() bool {
+	verifAbort(op)
 	op.releaseInodes()
 	op.Atxn.PostAbort()
 	return true
